@@ -250,7 +250,7 @@ def finish(prop, tier, seed, mod, merged, findings, wall, cfg, work, replay=Fals
         reasons.append(f"{nerr} monitor/workload errors (see evidence.monitor_error_samples)")
 
     # replay files for violations
-    rdir = ROOT / "replays" / prop
+    rdir = Path(os.environ.get("PVM_REPLAY_DIR") or (ROOT / "replays")) / prop
     replay_paths = []
     if violations:
         rdir.mkdir(parents=True, exist_ok=True)
@@ -297,7 +297,7 @@ def finish(prop, tier, seed, mod, merged, findings, wall, cfg, work, replay=Fals
         "violations": len(violations),
     }
     if not replay:
-        core.write_json(ROOT / "evidence" / f"{prop}.json", evidence)
+        core.write_json(Path(os.environ.get("PVM_EVIDENCE_DIR") or (ROOT / "evidence")) / f"{prop}.json", evidence)
     # clean scratch
     try:
         import shutil
